@@ -192,7 +192,7 @@ pub fn c11(a: &Args) {
             }
         };
         // other values / other text content (including whitespace-only text)
-        for salt in [1usize, 2] {
+        for salt in [1usize, 2, 3] {
             let nd: Vec<(Vec<u8>, ReaderCfg)> = calls.iter().map(|e| { let d = serialize_salted(e, 0, salt); (d.bytes, d.cfg) }).collect();
             check(format!("other values (salt {})", salt), nd, Feed::Whole, &mut mismatches);
         }
@@ -377,10 +377,17 @@ pub fn c05(a: &Args) {
             let mut g = GenCfg::rich();
             g.names = ["Foo", "foo", "FOO", "a-b", "a.b", "a_b", "ns:a", "x:a", "a", "type", "Type", "text"].iter().map(|x| x.to_string()).collect();
             g.attrs = ["id", "Id", "ID", "x-y", "x_y", "n:q", "q", "type", "text", "xmlns:n"].iter().map(|x| x.to_string()).collect();
+            if s % 2 == 1 {
+                // the literal forms the identifier disambiguation itself produces (numeric suffix, _attr, text_content),
+                // next to names that collide: gaps in the suffix sequence, an attribute next to a child called x_attr ...
+                g.names = ["foo", "Foo", "FOO", "fOO", "foo_1", "foo_2", "foo_3", "foo_attr", "text", "text_content"].iter().map(|x| x.to_string()).collect();
+                g.attrs = ["foo", "Foo", "foo_attr", "foo_1", "text", "text_content"].iter().map(|x| x.to_string()).collect();
+                g.text_pct = 60;
+            }
             g.max_depth = 2 + r.below(3);
             g.max_kids = 2 + r.below(4);
             g.pretty = s % 4 == 0;
-            let k = 3 + r.below(5);
+            let k = 3 + r.below(6);
             let mut pool = g.names.clone();
             r.shuffle(&mut pool);
             pool.truncate(k);
@@ -388,7 +395,7 @@ pub fn c05(a: &Args) {
             let root = r.pick(&g.names).clone();
             let nd = 1 + r.below(3);
             let docs: Vec<Value> = (0..nd).map(|_| {
-                let budget = 2 + r.below(20);
+                let budget = 2 + r.below(24);
                 let d = document(&mut r, &g, &root, budget);
                 json!({"hex": hex(&d), "cfg": {}})
             }).collect();
